@@ -146,6 +146,19 @@ CLAIMED.update({
             "The pointer is the path: a TombstoneFile through an older copy of a pointer acts on whatever file lives at that path; forced names are not re-used while a tombstoned writer is still open (that combination is the contract-violating finding-8 scenario described in DESIGN.md).", "DESIGN.md section 5 C16"),
 })
 
+CLAIMED.update({
+    "C14": ("exploration",
+            "property-based testing (rapid): generated flush/merge histories for both shipped MetaStores with harness-owned interleavings — a complete probe query before and after every store call of every flush and merge (window), a query whose MetaStore iteration is paused while a Merge or flush commits (span), free-running writers/merger/queriers (stress); history oracle over unique row ids and acknowledgement times",
+            "150 (quick) / 3 000 (thorough) generated cases; in window mode every publish / commit / cleanup boundary visible to the store wrapper is probed, so the windows are owned rather than hoped for; stress interleavings are sampled. Two known findings of FileSystemDataStore-as-MetaStore (duplicates in the publish-to-removal window, omissions when the scan listed the directory before the commit) are re-observed, attributed by signature (affected ids are exactly rows of the Merge in progress) and excluded; anything else is a violation.",
+            "Err()!=nil imposes nothing on content except never inventing rows. On the filesystem MetaStore, free-running stress queries that overlap a Merge and disagree are excluded and counted (the gated modes judge that window precisely).",
+            "DESIGN.md section 5 C14"),
+    "C27": ("exploration",
+            "property-based testing (rapid): generated operation histories with one-shot store failures, corrupt files, filter-less external files and wedged Stop deadlines, each executed by a plain child program (no test framework) whose stdout and stderr are pipes owned by the parent; oracle = both streams empty byte for byte with Logger == nil; twin run with a counting slog.Logger proves logging call sites and failure paths were reached",
+            "240 (quick) / 6 000 (thorough) scenarios; the evidence names every Warn message and failure path reached (at seed 1 quick: five of the six Warn call sites of the current tree, post-commit merge cleanup failure, failed flushes/merges/queries). Exploration of histories, not all of them.",
+            "Anything written by the library's dependencies to the process's streams counts too; a child that fails without output is reported as inconclusive, not as a violation.",
+            "DESIGN.md section 5 C27"),
+})
+
 PENDING_REASON ="check not yet built in this revision of /verif (no technical obstacle; see DESIGN.md section 5)"
 
 def main():
